@@ -130,15 +130,19 @@ def check(ctx):
             cbname = u(reg[0][1]["CB"])
             cb = ctx.fn(f"BlockingPortal._call_func.{cbname}", FT)
             cparam = cb.node.args.args[0].arg
+            tid = ctx.sites(cf, "$V = self._event_loop_thread_id")
+            TID = u(tid[0][1]["V"]) if tid else "event_loop_thread_id"
+            ctx.ob("R15-a", cf, "the loop thread id is captured when the call starts (stop() clears the attribute)", len(tid) == 1,
+                   detail="" if tid else "no `event_loop_thread_id = self._event_loop_thread_id` in _call_func", by=("captured thread id",))
             cancels = ctx.sites(cb, f"{sname}.cancel($*A)")
             viars = [n for n in own_walk(cb.node) if isinstance(n, ast.Call) and call_name(n) == "run_sync" and n.args and ast.unparse(n.args[0]) == f"{sname}.cancel"]
             ctx.ob("R15-a", cb, "the callback cancels exactly this call's scope (directly in the loop thread, marshalled otherwise)", len(cancels) == 1 and len(viars) == 1,
                    detail="" if cancels and viars else f"callback cancels: direct {len(cancels)}, via run_sync {len(viars)}", by=(f"{sname}.cancel",))
             for st, _ in cancels:
-                ctx.require_at("R15-a", cb, st, [[f"{cparam}.cancelled()", "event_loop_thread_id == get_ident()"]], instance="direct cancel only for a cancelled future, in the loop thread",
+                ctx.require_at("R15-a", cb, st, [[f"{cparam}.cancelled()", f"{TID} == get_ident()"]], instance="direct cancel only for a cancelled future, in the loop thread",
                                what="scope.cancel")
             for v in viars:
-                ctx.require_at("R15-a", cb, stmt_of(v), [[f"{cparam}.cancelled()", "not event_loop_thread_id == get_ident()", "not event_loop_thread_id is None"]],
+                ctx.require_at("R15-a", cb, stmt_of(v), [[f"{cparam}.cancelled()", f"not {TID} == get_ident()", f"not {TID} is None"]],
                                instance="marshalled cancel only for a cancelled future, from a foreign thread, while the portal runs", what="run_sync(scope.cancel)")
                 tok = any(k.arg == "token" and ast.unparse(k.value) == "self._token" for k in v.keywords)
                 ctx.ob("R15-a", cb, "the marshalled cancel goes to the portal's own event loop", tok, node=stmt_of(v), detail="" if tok else "run_sync(scope.cancel, ...) without token=self._token",
@@ -329,6 +333,8 @@ def check(ctx):
     ctx.paths("R15-e", td, [("r", [f"{sfut}.cancel()", f"{sfut}.set_exception($X)"])], step_e, 0, at_exit_e, instance="task_done resolves an unresolved status future exactly once")
     for s_, _ in ctx.sites(td, f"{sfut}.cancel()"):
         ctx.require_at("R15-e", td, s_, [[f"{tparam}.cancelled()"]], instance="the status future is cancelled only if the task's future was cancelled")
+    for s_, _ in ctx.sites(td, f"{sfut}.cancel()") + ctx.sites(td, f"{sfut}.set_exception($X)"):
+        ctx.require_at("R15-e", td, s_, [[f"not {sfut}.done()"]], instance="the status future is resolved by the done-callback only while unresolved (after started() it must stay untouched)")
     se2 = ctx.sites(td, f"{sfut}.set_exception({tparam}.exception())")
     ctx.ob("R15-e", td, "a task that failed before started() forwards its own exception", len(se2) == 1, detail="" if se2 else "the task's exception is not forwarded to the status future",
            by=("set_exception(future.exception())",))
